@@ -12,6 +12,23 @@ callback installed by sim.world_b.install) and at operation boundaries
              paths - lazy initialisation, cache refills, error branches - are
              exactly the lines that are new late in a run)
   exit_picks, first
+  lockstep : {'burst': [b0, b1, ..]}      while `lock_on` is set (by the run,
+             at operation boundaries, from the state watch: some library
+             container is about to reach a round capacity) thread t runs
+             b[t] pamqp lines, then the next thread in cyclic order runs
+  park     : {'thread': t, 'k': k, 'names': [...]}   thread t is parked just
+             before the k-th line it executes inside a function that refers
+             to one of `names` (the library's run-time containers, from the
+             state watch); every other thread then runs to the end of its
+             window, in cyclic order; then t resumes.  k = None: no parking,
+             the threads run one after the other starting with `first`.
+             With 'rv': m (rendezvous) the next thread only runs until it
+             is about to execute the SAME source line for the m-th time;
+             then t executes that one line, then the other thread runs to
+             the end of its window, then t: both threads have passed
+             whatever check precedes the line before either executes it.
+  rr_ops   : true                          switch to the next thread in cyclic
+             order at every operation boundary (threads advance op by op)
 
 Nothing here draws randomness or reads a clock.
 """
@@ -45,6 +62,21 @@ class Baton:
         self.log = log          # callable(*event)
         self.switches = 0
         self.switch_sigs = []
+        self.lockstep = trace.get('lockstep') or None
+        self.lock_on = False
+        self.ls_n = 0
+        self.rr_ops = bool(trace.get('rr_ops'))
+        self.ls_switches = 0
+        self.park = trace.get('park') or None
+        self.park_done = False
+        self.park_names = frozenset((self.park or {}).get('names') or ())
+        self.relevant = [0] * n      # per thread: lines in such functions
+        self._rel_cache = {}
+        self.rv = (self.park or {}).get('rv')
+        self.rv_state = 0
+        self.rv_loc = None
+        self.rv_arrivals = 0
+        self.rv_other = None
 
     def point(self, code, line):
         if self.abort:
@@ -65,13 +97,67 @@ class Baton:
                     picks = self.novel['picks']
                     pick = picks[self.novel_i % len(picks)]
                     self.novel_i += 1
+        if self.park is not None and code is not None:
+            rel = self._rel_cache.get(code)
+            if rel is None:
+                names = self.park_names
+                rel = bool(names and (names.intersection(code.co_names) or
+                                      names.intersection(code.co_freevars)))
+                self._rel_cache[code] = rel
+            if rel:
+                self.relevant[tid] += 1
+                if not self.park_done and tid == self.park['thread'] and \
+                        self.relevant[tid] == self.park['k']:
+                    self.park_done = True
+                    pick = -1
+                    if self.rv:
+                        self.rv_state = 1
+                        self.rv_loc = (code.co_filename, line)
+                elif self.rv_state == 1 and tid != self.park['thread'] and \
+                        (code.co_filename, line) == self.rv_loc:
+                    self.rv_arrivals += 1
+                    if self.rv_arrivals == self.rv:
+                        # both threads stand before the same line
+                        self.rv_state = 2
+                        self.rv_other = tid
+                        pick = -2
+        if self.rv_state == 2 and tid == self.park['thread'] and \
+                pick is None:
+            # the parked thread has executed the line: now the other
+            self.rv_state = 3
+            pick = -3
         if pick is None:
-            return
+            if code is None:
+                if not self.rr_ops:
+                    return
+            elif self.lock_on and self.lockstep is not None:
+                self.ls_n += 1
+                b = self.lockstep.get('burst') or [1]
+                if self.ls_n < b[tid % len(b)]:
+                    return
+                self.ls_n = 0
+                self.ls_switches += 1
+            else:
+                return
+            pick = -1
         others = [t for t in range(self.n)
                   if t != tid and not self.finished[t]]
         if not others:
             return
-        target = others[pick % len(others)]
+        if pick == -1:
+            # next thread in cyclic order
+            later = [t for t in others if t > tid]
+            target = later[0] if later else others[0]
+        elif pick == -2:
+            target = self.park['thread']
+            if target not in others:
+                return
+        elif pick == -3:
+            target = self.rv_other
+            if target not in others:
+                return
+        else:
+            target = others[pick % len(others)]
         where = (os.path.basename(code.co_filename), line) \
             if code is not None else ('op-boundary', 0)
         self.log('switch', tid, target, where)
@@ -92,7 +178,9 @@ class Baton:
         others = [t for t in range(self.n)
                   if t != tid and not self.finished[t]]
         if not others:
-            raise RuntimeError('library lock held by a finished thread')
+            from sim import lib
+            raise lib.Deadlock('library lock held by a thread that has '
+                               'finished')
         self.lock_rr = getattr(self, 'lock_rr', 0) + 1
         target = others[self.lock_rr % len(others)]
         for t_, i_ in getattr(self, 'idents', {}).items():
@@ -123,7 +211,17 @@ class Baton:
         finally:
             self.finished[tid] = True
             others = [t for t in range(self.n) if not self.finished[t]]
-            if others:
+            if others and self.park is not None:
+                # the parked thread resumes last; the rest in cyclic order
+                rest = [t for t in others if t != self.park['thread']] \
+                    if self.park_done else others
+                rest = rest or others
+                later = [t for t in rest if t > tid]
+                target = later[0] if later else rest[0]
+                self.log('exit', tid, target)
+                self.current = target
+                self.sems[target].release()
+            elif others:
                 pick = self.exit_picks[self.exit_i % len(self.exit_picks)]
                 self.exit_i += 1
                 target = others[pick % len(others)]
